@@ -18,6 +18,7 @@ def run(prog, tier, extra=None):
     res = Result("C08", "other")
     R1 = res.rule("C08.routing-work", "accept paths with a previous block pass total_work >= work needed(prev.burnfee, timestamps, heartbeat)", floor=1)
     R2 = res.rule("C08.golden-ticket", "a carried golden ticket passes GoldenTicket::validate(prev.difficulty) re-targeted at prev.hash", floor=1)
+    R4 = res.rule("C08.halving", "routing work halves exactly len(path) - 1 times", floor=1)
     R3 = res.rule("C08.routing-path", "a false validate_routing_path rejects the transaction", floor=1)
     bv = BlockValidate(prog)
     b, ch = bv.body, bv.ch
@@ -113,6 +114,79 @@ def run(prog, tier, extra=None):
                 res.add(Finding(R3, "C08.routing-path|hop-signature", "validate_routing_path can return true although a hop signature does not verify", body.loc(s["bb"])))
             else:
                 res.sample({"rule": R3, "site": body.loc(s["bb"]), "verdict": "hop signature gates"})
+
+    # R4: the routing work credited to the block creator halves exactly once per hop after the first: the loop that halves
+    # runs len(path) - 1 times (iterator-length algebra: a..b -> b - a, windows(n) -> len - (n - 1), skip(k) -> - k)
+    from ..linear import Lin, Linearizer
+    gw = prog.body(CORE + "consensus::transaction::Transaction::generate_total_work")
+    if gw is None:
+        raise LookupError("Transaction::generate_total_work not found")
+    chw = Chaser(gw)
+    lzw = Linearizer(gw, chw)
+    halving = set()
+    for bb, blk in enumerate(gw.blocks):
+        for st in blk["s"]:
+            if st[0] == "=" and st[2][0] == "bin" and st[2][1] in ("Div", "Shr"):
+                k = st[2][3]
+                if k[0] == "k" and k[1].get("v") in (2, 1):
+                    halving.add(bb)
+    res.instance(R4)
+
+    def count(e, depth=0):
+        """number of items an iterator expression yields, as a Lin over len(..) atoms (None = unknown)"""
+        if depth > 12:
+            return None
+        x = e
+        while x[0] in ("ref", "deref"):
+            x = x[1]
+        if x[0] == "via" and x[1] in ("std::iter::IntoIterator::into_iter", "std::slice::iter", "std::slice::iter_mut", "std::iter::Iterator::enumerate"):
+            inner = x[2]
+            y = inner
+            while y[0] in ("ref", "deref"):
+                y = y[1]
+            if y[0] == "agg" or y[0] in ("call",) or (y[0] == "via" and y[1] != "std::ops::Deref::deref"):
+                c = count(y, depth + 1)
+                if c is not None:
+                    return c
+            return lzw.length(inner)
+        if x[0] == "agg" and x[1][0] == "adt" and x[1][1].endswith("ops::Range") and len(x[2]) == 2:
+            a, b_ = lzw.lin(x[2][0]), lzw.lin(x[2][1])
+            return (b_ - a) if a is not None and b_ is not None else None
+        if x[0] == "call":
+            last = x[1].rsplit("::", 1)[-1]
+            if last == "skip" and len(x[2]) == 2:
+                c, k = count(x[2][0], depth + 1), lzw.lin(x[2][1])
+                return (c - k) if c is not None and k is not None else None
+            if last == "windows" and len(x[2]) == 2:
+                L, n = lzw.length(x[2][0]), lzw.lin(x[2][1])
+                return (L - n + Lin(1)) if L is not None and n is not None else None
+            if last in ("enumerate", "rev", "cloned", "copied", "map", "inspect", "peekable"):
+                return count(x[2][0], depth + 1)
+            if last in ("iter", "iter_mut", "into_iter"):
+                return count(x[2][0], depth + 1) or lzw.length(x[2][0])
+        return lzw.length(x) if x[0] in ("field", "param", "local") else None
+    H = gw.innermost_loop_containing(halving) if halving else None
+    if not halving or H is None:
+        res.add(Finding(R4, "C08.halving|anchors", "generate_total_work no longer halves the routing work in a loop over the routing path", gw.loc(0)))
+    else:
+        cnt = None
+        for bb in sorted(gw.natural_loop(H)):
+            t = gw.term(bb)
+            if t["k"] == "call" and call_name(t) == "std::iter::Iterator::next" and t["args"]:
+                cnt = count(chw.origin(t["args"][0]))
+                break
+        path_len = None
+        for l in (lzw.length(("field", ("deref", ("param", 1, "self")), CORE + "consensus::transaction::Transaction", "path")),):
+            path_len = l
+        if cnt is None or path_len is None:
+            res.not_decided.append("C08.halving: iteration count of the halving loop does not normalise")
+        else:
+            diff = cnt - (path_len - Lin(1))
+            if diff.is_const() and diff.c == 0:
+                res.sample({"rule": R4, "loop": gw.loc(H), "iterations": repr(cnt), "verdict": "one halving per hop after the first"})
+            else:
+                res.add(Finding(R4, "C08.halving|count", "generate_total_work halves the routing work %s times, not len(path) - 1 times: multi-hop transactions are credited "
+                                "with the wrong amount of work" % repr(cnt), gw.loc(H)))
 
     res.explanation = (
         "Decides that the work requirement and the golden-ticket check are gates on every accepting path of Block::validate for a block with a known parent "
